@@ -535,6 +535,8 @@ PROPS["C18"] = dict(
     assumptions=["hostile client ids and topics are disjoint from the witnesses' (a hostile CONNECT with the witness's client id would be a legitimate takeover)",
                  "liveness is judged at detected quiescence; a slow machine yields 'inconclusive'"],
     runs=[
+        # a client that stops reading, floods the publish workers and then sends a packet that needs one (real-time 800 ms hand-over budget)
+        dict(name="pressure", pkg="c18", run="TestBackPressure", checks=dict(quick=96, thorough=1600), shards=16, timeout=dict(quick=400, thorough=2400), shrinktime="60s"),
         dict(name="regress", pkg="c18", run="TestRegress", timeout=300),
         dict(name="constants", pkg="c18", run="TestConstants", timeout=400, mem_gb=48),
         dict(name="states", pkg="c18", run="TestProtocolStates", shards=16, timeout=dict(quick=400, thorough=2400)),
